@@ -45,7 +45,7 @@ type dsShape struct {
 	Labeled bool   // second file given as label=path
 	Blocks  string // "a", "ab" (goos a then goos b), "notes" (goos a note x, goos a note y)
 	Benches int    // 1..3 of A, B/k=1, B/k=2-4
-	Units   string // "ns", "ns+B", "ns+x" (x/op with assume=exact)
+	Units   string // "ns", "ns+B", "ns+x" (x/op with assume=exact), "ns+alt" (second unit alternates between lines)
 	Reps    int
 	Pattern string // "shifted", "equal", "zero", "negative"
 	Missing bool   // the last benchmark is missing from the second file
@@ -58,7 +58,7 @@ var dsBenchNames = []string{"A", "B/k=1", "B/k=2-4"}
 
 func (s dsShape) build() dataset {
 	var ds dataset
-	units := map[string][]string{"ns": {"ns/op"}, "ns+B": {"ns/op", "B/op"}, "ns+x": {"ns/op", "x/op"}}[s.Units]
+	units := map[string][]string{"ns": {"ns/op"}, "ns+B": {"ns/op", "B/op"}, "ns+x": {"ns/op", "x/op"}, "ns+alt": {"ns/op", "B/op"}}[s.Units]
 	if s.Units == "ns+x" {
 		ds.UnitMeta = []string{"Unit x/op assume=exact"}
 	}
@@ -91,6 +91,10 @@ func (s dsShape) build() dataset {
 						continue
 					}
 					ln := dsLine{Name: dsBenchNames[ni], Units: units}
+					if s.Units == "ns+alt" && rep%2 == 1 {
+						// consecutive lines of one benchmark whose later units differ
+						ln.Units = []string{"ns/op", "allocs/op"}
+					}
 					for ui := range units {
 						base := float64(100 * (ni + 1) * (ui + 1))
 						var v float64
@@ -372,6 +376,8 @@ func c14Shapes(thorough bool) []dsShape {
 		{Files: 1, Blocks: "notes", Benches: 3, Units: "ns", Reps: 2, Pattern: "zero"},
 		{Files: 2, Blocks: "a", Benches: 3, Units: "ns", Reps: 5, Pattern: "shifted", MissingFirst: true},
 		{Files: 2, Blocks: "ab", Benches: 2, Units: "ns+B", Reps: 2, Pattern: "shifted", Missing: true, MissingFirst: true},
+		{Files: 2, Blocks: "a", Benches: 1, Units: "ns+alt", Reps: 5, Pattern: "shifted"},
+		{Files: 1, Blocks: "notes", Benches: 1, Units: "ns+alt", Reps: 2, Pattern: "equal"},
 	}
 	var all []dsShape
 	for _, files := range []int{1, 2, 3} {
@@ -415,7 +421,7 @@ func c14AllFlags() []c14Flags {
 	for _, table := range []string{".config", "goos", ""} {
 		for _, row := range []string{".fullname", ".name", "/k"} {
 			for _, col := range []string{".file", "goos", "/k"} {
-				for _, ign := range []string{"", "note", "goos"} {
+				for _, ign := range []string{"", "note", "goos", ".fullname", ".config"} {
 					for _, flt := range []string{"*", ".unit:ns/op", "/k:1", "-.name:A"} {
 						for _, alpha := range []float64{0.05, 1} {
 							for _, conf := range []float64{0.95, 0.5} {
